@@ -219,3 +219,26 @@ func hypEmpty(h *GeomHyp) bool {
 	}
 	return true
 }
+
+// decodedNonNil: a WKB decoder that reports success never returns a typed-nil
+// slice geometry (the encoder writes nothing for a typed nil, so a nil result
+// would not survive re-encoding: "re-encode and decode again is stable").
+var decodedNonNil = []postExpect{{
+	when: func(e, l string) bool {
+		return strings.Contains(e, "wkbcommon.read") || strings.Contains(e, "wkbcommon.unmarshal")
+	},
+	desc: "a successful decode returns a non-nil (possibly empty) geometry, never a typed nil",
+	ok: func(res []AV) (bool, bool) {
+		if len(res) < 2 {
+			return false, false
+		}
+		errv, ok := res[len(res)-1].(IfaceV)
+		if !ok || !errv.Nil {
+			return true, false // error (or unknown) path: not judged
+		}
+		if sl, ok := res[0].(SliceV); ok {
+			return !sl.Nil, !sl.MayNil
+		}
+		return true, false
+	},
+}}
